@@ -16,15 +16,16 @@ META = {
              "_stdin_writer sends, in the order accepted, one write per serialisable message = UTF-8 body + exactly one LF, "
              "drops an unserialisable message alone, puts no LF/CR byte inside a line (an ASCII byte occurs in UTF-8 only as "
              "itself), the body decodes back to the serialiser's text, and stdin is closed iff the write stream was closed, after "
-             "everything sent before. For the writer at /repo HEAD the full statement is REFUTED by a pre-serialised string "
-             "containing a line break (forwarded verbatim as several lines) and proved for sequences without such strings; for "
-             "the writer with fixes/C06-raw-string-line-breaks.patch it is proved without restriction. Tied to the real "
+             "everything sent before. For the writer BEFORE 'fix: stdio writer re-serialises a pre-serialised message that contains "
+             "line breaks' (policy Verbatim) the full statement is REFUTED by a pre-serialised string containing a line break "
+             "(forwarded verbatim as several lines) and proved for sequences without such strings; for the writer at /repo HEAD "
+             "(policy Recompact, that fix applied) it is proved without restriction. Tied to the real "
              "StdioClient._stdin_writer by a differential run over all shape sequences of length <= 6.",
     "note": "Trusted: Coq kernel, extraction (ExtrOcamlBasic only), the harness and its capturing process.stdin. Section variables: "
             "model_dump_json, model_dump, fast_json.dumps/loads (the harness feeds the model the REAL serialisers' results per "
             "message). Modelled not verified: orjson/stdlib json/pydantic, CPython str.encode (tied by the run), anyio memory "
             "streams; process.stdin.send is assumed to accept every write (live child). The harness detects which raw-string "
-            "policy the tree under test implements (Verbatim = HEAD, Recompact = patched) and runs the model with it.",
+            "policy the tree under test implements (Verbatim = before the fix, Recompact = /repo HEAD) and runs the model with it.",
     "technique": "Coq proof (structural induction over message sequences, UTF-8 encoder arithmetic by lia); differential "
                  "correspondence, exhaustive over shape sequences",
     "design_ref": "DESIGN.md section 6 (C06)",
@@ -403,7 +404,7 @@ def judge_all(ctx, drv, rows):
 
 def explore(ctx, drv):
     policy = anyio.run(_probe_policy)
-    ctx.extra["raw_string_policy_of_tree_under_test"] = "Verbatim (as /repo HEAD)" if policy == 0 else "Recompact (patched)"
+    ctx.extra["raw_string_policy_of_tree_under_test"] = "Verbatim (as before the fix)" if policy == 0 else "Recompact (as /repo HEAD)"
     ctx.extra["tree_under_test"] = lib.REPO
     seqs = gen_sequences(ctx)
     impl = anyio.run(run_sequences, seqs)
@@ -453,9 +454,9 @@ def run(ctx):
     ctx.rule = ("real StdioClient._stdin_writer with a capturing process.stdin. (a) EVERY sequence of length 0..6 (7 thorough) "
                 "over the groups typed / dict / pre-serialised string / unserialisable (so an unserialisable object at every "
                 "position), concrete variant (5 typed classes, 6 string layouts incl. pretty-printed / CRLF / trailing newline, "
-                "7 unserialisable objects) and payload (strings with \\n \\r U+2028 NUL quotes backslash astral, nested null, "
+                "9 unserialisable objects) and payload (strings with \\n \\r U+2028 NUL quotes backslash astral, nested null, "
                 "big ints, floats, keys with breaks) rotating; (b) every variant x every payload alone and between neighbours; "
-                "(c) seeded sequences of 8..300 messages over all 25 variants; every 3rd-5th sequence ends by closing the write "
+                "(c) seeded sequences of 8..300 messages over all 27 variants; every 3rd-5th sequence ends by closing the write "
                 "stream. Model gets the REAL serialisers' per-message results; spec oracle = extracted stream_ok/stream_lines on "
                 "the captured bytes + json.loads equality with the value the message was built from. exhaustive:true refers to (a),(b)")
     return lib.finish(ctx, TRUSTED, ASSUME)
